@@ -127,6 +127,12 @@ func expectedItem(cfg sCfg, it sItem) string {
 		return fmt.Sprintf("%d,%s,%d,%d,m%d,-", it.op, uid, uint32(kmip.RESULT_STATUS_OPERATION_FAILED), uint32(kmip.RESULT_REASON_GENERAL_FAILURE), it.beh.msg)
 	case 'r':
 		return fmt.Sprintf("%d,%s,%d,%d,m%d,-", it.op, uid, uint32(kmip.RESULT_STATUS_OPERATION_FAILED), it.beh.reason, it.beh.msg)
+	case 'v':
+		reason := it.beh.reason
+		if reason == 0 {
+			reason = int(kmip.RESULT_REASON_GENERAL_FAILURE)
+		}
+		return fmt.Sprintf("%d,%s,%d,%d,m%d,-", it.op, uid, uint32(kmip.RESULT_STATUS_OPERATION_FAILED), reason, it.beh.msg)
 	default:
 		return fmt.Sprintf("%d,%s,%d,%d,panic:m%d,-", it.op, uid, uint32(kmip.RESULT_STATUS_OPERATION_FAILED), uint32(kmip.RESULT_REASON_GENERAL_FAILURE), it.beh.msg)
 	}
@@ -405,7 +411,7 @@ func stalledPeerDropped(r *Result, run *sessionRun) {
 
 func sessRule(extra string) string {
 	return "random session scripts run on the real Server over in-memory recording connections, 1..N concurrent sessions per server, sequential or pipelined delivery: " +
-		"1..8 arrivals (requests with 1..5 items over behaviours success/unencodable/nil/error/error-with-reason/panic/no-handler, with and without batch IDs, correlation values and credentials; inconsistent batch counts; asynchronous requests; failing response writes; garbage, wrong message type, truncation+close, stall, clean close); " +
+		"1..8 arrivals (requests with 1..5 items over behaviours success/unencodable/nil/error/error-with-reason/value-beside-an-error/panic/no-handler, with and without batch IDs, correlation values and credentials; inconsistent batch counts; asynchronous requests; failing response writes; garbage, wrong message type, truncation+close, stall, clean close); " +
 		"each real event trace (deadlines, reads, callbacks, handler calls with their context, decoded responses, close) is compared with the Lean model's trace and judged by the property oracle. " + extra +
 		" distinct = distinct script; non-trivial = more than one arrival"
 }
